@@ -28,7 +28,7 @@ Judge(ev) ==
                            ELSE same
         ExpectDelete(pos, byIds) ==
             LET res == DeleteAt(meta, db, t, pos) IN
-            IF ~res.ok THEN (IF ev.err = "fk" THEN same ELSE Bad("the model refuses the delete (a NO ACTION reference remains) but the call returned " \o (IF ev.err = "" THEN "no error" ELSE ev.err)))
+            IF ~res.ok THEN (IF ev.err \in res.errs THEN same ELSE Bad("the model refuses the delete (a NO ACTION reference remains, or SET NULL on a NOT NULL column) but the call returned " \o (IF ev.err = "" THEN "no error" ELSE ev.err)))
             ELSE IF ev.err # "" THEN Bad("SQL error on a legal call: " \o ev.err \o " " \o ev.msg)
             ELSE IF byIds /\ SeqSet(ev.outids) # {db[n][i].id : i \in pos} THEN Bad("returned ids differ from the deleted rows of the model")
             ELSE IF byIds /\ Len(ev.outids) # Cardinality(pos) THEN Bad("returned ids are not distinct")
@@ -115,7 +115,7 @@ Call == /\ l <= Len(Trace) /\ Trace[l].ev = "call"
 
 TraceSpec == TraceInit /\ [][Reset \/ Call]_<<l, meta, db, next, dead>>
 \* the carried model state always satisfies the design-level invariants of CrudModel
-ModelIntegrity == meta = <<>> \/ (Integrity(meta, db) /\ AllUnique(meta, db))
+ModelIntegrity == meta = <<>> \/ (Integrity(meta, db) /\ AllUnique(meta, db) /\ NotNullOK(meta, db))
 Post == /\ TLCGet("stats").diameter - 1 = Len(Trace)
         /\ ndJsonSerialize(IOEnv.VERIF_OUT, <<[consumed |-> Len(Trace)]>> \o TLCGet(1))
 =============================================================================
